@@ -126,6 +126,8 @@ def standin_logging(tier, seed):
         if pl is not None and (sv is None or pl % sv != 0):
             continue           # refused by the settings (plot needs the saved CSV files)
         combos.append(dict(print_periodicity=pr, save_periodicity=sv, plot_periodicity=pl, plot_patient_periodicity=pp))
+        if pl is not None:
+            combos.append(dict(print_periodicity=pr, save_periodicity=sv, plot_periodicity=pl, plot_patient_periodicity=pp, plot_sourcewise=True))
     cwd = os.getcwd()
     tmp = tempfile.mkdtemp(prefix="c11_")
     try:
